@@ -205,4 +205,27 @@ example : isHttpError 400 = true ∧ isHttpError 599 = true ∧ isHttpError 399 
 example : parseSum [(1, [97, 98])] 9 (sumOfStatus 400 [97, 98]) = .missing := by decide
 example : parseSum [(1, [97, 98])] 9 (sumOfStatus 200 [97, 98]) = .avail 1 := by decide
 
+/-- Two calls in a row (a history of calls, the file left by the first being the prior state of the second): after ANY call
+that returned normally with its last checksum fetch answered `h` — whatever the server did before, whatever file was there
+before —, a second call against a server that still publishes `h` returns early, makes NO data request and leaves the file
+as it is, whatever the data URL would now answer (`ds'` arbitrary, errors and corrupted bodies included).  Corollary of
+`ok_implies_checksum_matches` and `valid_existing_not_refetched`; it is the statement a caller relies on when it calls
+`download_file` unconditionally at every start-up. -/
+theorem second_call_is_noop (hash : Nat → Nat) (prior : Option Nat) (ds ds' : List DataResp)
+    (ss ss' : List SumResp) (h : Nat)
+    (hret : (download hash (start prior ds ss)).2 = .skipped ∨ (download hash (start prior ds ss)).2 = .done)
+    (hlast : lastSum (download hash (start prior ds ss)).1.log = some (.avail h)) :
+    let r2 := download hash (start (download hash (start prior ds ss)).1.file ds' (.avail h :: ss'))
+    r2.2 = .skipped ∧ nData r2.1.log = 0 ∧ r2.1.file = (download hash (start prior ds ss)).1.file := by
+  obtain ⟨b, hb, hh⟩ := Lemmas.ok_implies_checksum_matches hash prior ds ss h hret hlast
+  rw [hb]
+  subst hh
+  exact Lemmas.valid_existing_not_refetched hash b ds' ss'
+
+/-! Non-vacuity: first call — corrupted body, then the right one on the retry; second call — the data URL is now down. -/
+example :
+    let r1 := download id (start (some 5) [.body 2, .body 1] [.avail 1, .avail 1, .avail 1])
+    r1.2 = .done ∧ lastSum r1.1.log = some (.avail 1) ∧ nData r1.1.log = 2 ∧
+    (download id (start r1.1.file [.httpError] [.avail 1])).2 = .skipped := by decide
+
 end PhyVerif.C20
